@@ -149,6 +149,21 @@ def text_variant(text, rng, how=None):
     return text + "\n"
 
 
+def twin(text, rng):
+    """A different valid text of exactly the same length (one digit of a numeric literal changed): whatever identifies a
+    text by something cheaper than its content (length, object identity, a prefix) confuses the two."""
+    import re
+
+    spots = [m.start() for m in re.finditer(r"(?<== )\d", text)]
+    if not spots:
+        return None
+    i = spots[rng.randrange(len(spots))]
+    d = str((int(text[i]) + 1 + rng.randrange(8)) % 10)
+    if d == "0" or d == text[i]:
+        d = "7" if text[i] != "7" else "3"
+    return text[:i] + d + text[i + 1:]
+
+
 def make_pool(rng, n_valid=5, n_broken=2, n_ws=1):
     """Returns list of dicts {text, broken, base (index of the text it is a variant of or None)}."""
     pool = []
@@ -159,6 +174,11 @@ def make_pool(rng, n_valid=5, n_broken=2, n_ws=1):
     for k in range(n_ws):
         b = rng.randrange(n_valid)
         pool.append({"text": text_variant(pool[b]["text"], rng), "broken": False, "base": b})
+    if rng.random() < 0.5:
+        b = rng.randrange(n_valid)
+        t = twin(pool[b]["text"], rng)
+        if t is not None and not pool[b].get("deep"):
+            pool.append({"text": t, "broken": False, "base": None})
     for k in range(n_broken):
         b = rng.randrange(n_valid)
         pool.append({"text": make_broken(pool[b]["text"], BREAKERS[rng.randrange(len(BREAKERS))]), "broken": True,
